@@ -5,6 +5,7 @@ import QR.Proofs.Segmentation
 import QR.Props.C03
 import QR.Props.C09
 import QR.Proofs.Pinned
+import QR.Proofs.CapstoneE4
 /-
 C01 - read (compile cfg payload) = payload.
 Every symbol `Model.compile` produces (any valid configuration: version given / fitted, any of the four levels, mask given /
@@ -127,6 +128,128 @@ theorem C01_roundtrip (cfg : Model.Cfg) (hcfg : cfg.Valid) (l : Spec.Level) (hl 
   obtain ⟨ps, hp⟩ := toPSegs_of_valid hvalid
   obtain ⟨r, hr, a1, a2, a3, _, a5, a6, _⟩ := C01_read_compile cfg hcfg l hl _ hvalid ps hp v m M h
   exact ⟨r, hr, a1, a2, a3, a5, a6.trans hcat⟩
+
+/-! ### Capstones: (ii) composed with (i) - THE WHOLE COMPILE ASSEMBLED FROM TRANSLATED PARTS satisfies the Spec-level statements.
+    `QR.CapstoneE4.compileSrc` (QR/Proofs/CapstoneE4.lean) is the cache-free compile of a fresh object
+    (`QRCode(version, error_correction, mask_pattern)`, `data_list = segs`, `make(fit)`) with the statement order, tests and call
+    arguments of main.py:QRCode.make as translated (`Gen.Code.make_*`, regenerated from /repo's current Python AST on every run)
+    and its four callees as PARAMETERS, instantiated below, explicitly, by the functions assembled from translated fragments:
+      `best_fit`            `CapstoneE1.bestFitSrc` (main.py:QRCode.best_fit, every statement; accumulation loop `segsBitsSrc`) over
+                            `modeSizesSrc` (util.py:mode_sizes_for_version), `checkVersionSrc` (util.py:check_version, run by the
+                            `version` setter), `writeBufSrc` (util.py:QRData.write on the translated BitBuffer: put, put_bit,
+                            __len__, get); `Gen.BIT_LIMIT_TABLE` is the table dumped from the running library; 4 = recursion
+                            fuel.  Model callee left: `bisectLeft` (bisect.bisect_left of the standard library)
+      `create_data`         `CapstoneE4.createDataSrc` (util.py:create_data, length_in_bits, base.py:rs_blocks, util.py:create_bytes
+                            with both interleaving loops and the `current_ec` computation `ecOfBlockSrc`) over `segsBitsBufSrc`
+                            (the segment loop on the translated BitBuffer: put, put_bit, QRData.__len__, QRData.write, bits read
+                            back by the translated __len__ / get).  Model callees left: `rsPolyFor`, `polyMk`, `polyMod` (generator
+                            lookup / fallback loop, `Polynomial.__init__`, `Polynomial.__mod__`; tied to the source under C02),
+                            and inside `QRData.write` `intOfDigits` (`int(chars)`)
+      `makeImpl`            `CapstoneE2.makeImplSrc` (main.py:QRCode.makeImpl with setup_position_probe_pattern,
+                            setup_position_adjust_pattern, setup_timing_pattern, util.py:pattern_position, setup_type_info,
+                            setup_type_number, util.py:BCH_type_info, BCH_type_number, map_data, the lambdas of util.py:mask_func)
+                            over `bchDigitSrc` (util.py:BCH_digit, translated `while` loop)
+      `best_mask_pattern`   `CapstoneE4.bestMaskSrc` (inside `compileSrc`: `range(mask_candidates)`, `makeImpl(True, i)`, the
+                            translated update test `pick_update`)
+      `lost_point`          `CapstoneE4.lostPointSrc` (util.py:lost_point and its four scanners, all translated)
+    `find_bytes` = `ALPHA_NUM.find` on a one-character bytes object, with the hypothesis `hfb` of the bridge kept.
+    Hand-assembled, not translated: the `for` / `while` skeletons of the assemblers (fuel where a `while` has no static bound),
+    the `if pattern == k` dispatch of `mask_func`, the two caches (`data_cache` = `create_data` run once;
+    `precomputed_qr_blanks` = always a miss), the representation functions (`bitsBE`, `packBytes`, `Mat.toBMat`: `BitBuffer.put` as
+    a bit list, `buffer.buffer`, `self.modules` read as Booleans).
+    `compileCallsSrc` puts the translated main.py:QRCode.add_data (`sg_add_data`, with util.py:optimal_data_chunks,
+    _optimal_split, QRData.__init__, optimal_mode, to_bytestring; the `re` engine as `SourceTieD1.pyModel F enc`: `searchModel` /
+    `matchModel`, `F d ≥ len(d)` iterations for each `while data:`) in front; `qSeg` reads a translated `QRData` object as a
+    segment.  `symOf` is the Boolean view of the matrix handed to the reader.  No other Model function occurs in a conclusion.
+    All from `QR.CapstoneE4.compileSrc_eq_refined` / `compileCallsSrc_eq_refined` (= `bestFitSrc_eq`, `createDataSrc_eq`,
+    `makeImplSrc_eq`, `SourceTie.pick_eq`, `SourceTieD3.lost_point_src`, `segsLoopSrc_eq`, `segWrite_bytes_src`, `bchDigit_src`,
+    `addData_src`) and the property theorems above. -/
+section Capstone
+open QR.Model QR.Gen.Code QR.SourceTieA QR.SourceTieD1 QR.CapstoneE1 QR.CapstoneE2 QR.CapstoneE4
+
+/-- **capstone, main.py:QRCode.make -> best_fit -> util.py:create_data (-> rs_blocks -> create_bytes) -> best_mask_pattern
+    (-> makeImpl(True, i) -> util.py:lost_point) -> makeImpl(False, ·) (the whole compile)**: for every valid configuration, each of
+    the four levels and every list of valid segments, whenever the compile assembled from the translated source succeeds, the
+    strict ISO reader `Spec.read` accepts the symbol and returns the version and mask the compile reports, the requested level,
+    exactly the segments - hence exactly the payload bytes -, conformant terminator / padding; the mask and version are the
+    requested ones where requested.  From `compileSrc_eq_refined` and `C01_read_compile`. -/
+theorem C01_source_capstone_read_compile (find_bytes : List Nat → R Nat) (hfb : ∀ a, find_bytes [a] = alphaFind a)
+    (cfg : Model.Cfg) (hcfg : cfg.Valid) (l : Spec.Level) (hl : cfg.level = l.indicator)
+    (segs : List Model.Seg) (hv : ∀ s ∈ segs, s.Valid)
+    (ps : List Spec.PSeg) (hp : toPSegs segs = some ps) (v m : Nat) (M : Model.Mat)
+    (h : compileSrc (bestFitSrc modeSizesSrc (segsBitsSrc (writeBufSrc find_bytes)) Gen.BIT_LIMIT_TABLE bisectLeft checkVersionSrc 4)
+        (createDataSrc (segsBitsBufSrc find_bytes) (ecOfBlockSrc rsPolyFor polyMk polyMod)) (makeImplSrc bchDigitSrc) lostPointSrc cfg segs
+      = .ok (v, m, M)) :
+    ∃ r, Spec.read (symOf M) = .ok r ∧ r.version = v ∧ r.level = l ∧ r.mask = m ∧ r.segs = ps ∧
+      r.tailConformant = true ∧ r.payload = segs.flatMap (·.data) ∧ (∀ m', cfg.mask = some m' → m = m') ∧
+      (cfg.version ≠ 0 → cfg.fit = false → v = cfg.version) ∧ cfg.version ≤ v := by
+  rw [compileSrc_eq_refined find_bytes hfb cfg (hl ▸ Sym.indicator_lt l)] at h
+  exact C01_read_compile cfg hcfg l hl segs hv ps hp v m M h
+
+/-- **capstone, main.py:QRCode.add_data (translated, with the segmentation below it) -> the whole compile, end to end**: payload
+    byte strings added by `add_data(d, optimize=n)` (any thresholds), any valid configuration: whenever the translated `add_data`
+    calls followed by the assembled compile succeed, the strict ISO reader returns the concatenated payload, byte for byte, with
+    the version, level and mask of the compile.  From `compileCallsSrc_eq_refined` (`C10_source_addData`) and `C01_roundtrip`. -/
+theorem C01_source_capstone_roundtrip (find_bytes : List Nat → R Nat) (hfb : ∀ a, find_bytes [a] = alphaFind a)
+    (F enc) (hF : ∀ d : List Nat, d.length ≤ F d)
+    (cfg : Model.Cfg) (hcfg : cfg.Valid) (l : Spec.Level) (hl : cfg.level = l.indicator)
+    (calls : List (List Nat × Nat)) (hb : ∀ p ∈ calls, ∀ c ∈ p.1, c < 256) (v m : Nat) (M : Model.Mat)
+    (h : compileCallsSrc (pyModel F enc)
+        (bestFitSrc modeSizesSrc (segsBitsSrc (writeBufSrc find_bytes)) Gen.BIT_LIMIT_TABLE bisectLeft checkVersionSrc 4)
+        (createDataSrc (segsBitsBufSrc find_bytes) (ecOfBlockSrc rsPolyFor polyMk polyMod)) (makeImplSrc bchDigitSrc) lostPointSrc cfg calls
+      = .ok (v, m, M)) :
+    ∃ r, Spec.read (symOf M) = .ok r ∧ r.version = v ∧ r.level = l ∧ r.mask = m ∧ r.tailConformant = true ∧
+      r.payload = calls.flatMap (·.1) := by
+  rw [compileCallsSrc_eq_refined F enc hF find_bytes hfb cfg (hl ▸ Sym.indicator_lt l)] at h
+  exact C01_roundtrip cfg hcfg l hl calls hb v m M h
+
+/-- **capstone, same chain as `C01_source_capstone_read_compile`: the codewords the reader finds** - it reports exactly the ISO
+    Table 7 number of data codewords of (version, level), and these, read as a bit stream by the ISO recogniser, are the
+    segments with a conformant tail.  From `compileSrc_eq_refined` and `C01_data_codewords`. -/
+theorem C01_source_capstone_data_codewords (find_bytes : List Nat → R Nat) (hfb : ∀ a, find_bytes [a] = alphaFind a)
+    (cfg : Model.Cfg) (hcfg : cfg.Valid) (l : Spec.Level) (hl : cfg.level = l.indicator)
+    (segs : List Model.Seg) (hv : ∀ s ∈ segs, s.Valid)
+    (ps : List Spec.PSeg) (hp : toPSegs segs = some ps) (v m : Nat) (M : Model.Mat)
+    (h : compileSrc (bestFitSrc modeSizesSrc (segsBitsSrc (writeBufSrc find_bytes)) Gen.BIT_LIMIT_TABLE bisectLeft checkVersionSrc 4)
+        (createDataSrc (segsBitsBufSrc find_bytes) (ecOfBlockSrc rsPolyFor polyMk polyMod)) (makeImplSrc bchDigitSrc) lostPointSrc cfg segs
+      = .ok (v, m, M)) :
+    ∃ r, Spec.read (symOf M) = .ok r ∧ r.dataCodewords.length = Spec.dataCodewords v l ∧
+      Spec.readStream v (Model.writeBytes r.dataCodewords) = some { segs := ps, tailConformant := true } := by
+  rw [compileSrc_eq_refined find_bytes hfb cfg (hl ▸ Sym.indicator_lt l)] at h
+  exact C01_data_codewords cfg hcfg l hl segs hv ps hp v m M h
+
+/-- **capstone, main.py:QRCode.make on the real object, with both caches** (`QR.CapstoneE3.makeSrc`: `make(fit)` assembled from its
+    translated pieces `Gen.Code.make_*`; PARTLY translated chain: the callees `best_fit`, `best_mask_pattern`, `makeImpl` inside
+    `makeSrc` are the Model's state-threading `bestFitS`, `bestMaskS`, `makeImplS`, tied to the source by `C11_source_*` /
+    `C07_source_*` / `C05_source_*`): on any object with valid settings, valid data and a sound process-wide cache of blanks `g`
+    (`GInv`), whenever the assembled `make(fit)` returns normally, the strict ISO reader accepts `self.modules` and returns the
+    version left in the object, the level, exactly the segments of `data_list` - hence the payload -, conformant tail, and the
+    requested mask when one was set; from `SourceTieB.makeS_src`, `makeS_ok` (History) and `C01_read_compile`. -/
+theorem C01_source_capstone_make_read (fit : Bool) (g : Model.Global) (s : Model.QRState) (l : Spec.Level)
+    (hg : GInv g) (hver : s.version ≤ 40) (hm : ∀ m, s.mask = some m → m ≤ 7) (hl : s.level = l.indicator)
+    (hsegs : ∀ x ∈ s.dataList, x.Valid) (ps : List Spec.PSeg) (hp : toPSegs s.dataList = some ps)
+    (g' : Model.Global) (s' : Model.QRState) (h : QR.CapstoneE3.makeSrc fit g s = ((g', s'), .ok ())) :
+    ∃ r, Spec.read (symOf s'.modules) = .ok r ∧ r.version = s'.version ∧ r.level = l ∧ r.segs = ps ∧
+      r.tailConformant = true ∧ r.payload = s.dataList.flatMap (·.data) ∧ (∀ m', s.mask = some m' → r.mask = m') := by
+  rw [← QR.CapstoneE3.makeS_eq_makeSrc] at h
+  obtain ⟨_, _, _, _, _, _, m, hc⟩ := makeS_ok hg h
+  obtain ⟨r, hr, a1, a2, a3, a4, a5, a6, a7, _⟩ :=
+    C01_read_compile (cfgOf s fit) ⟨hver, hm⟩ l hl s.dataList hsegs ps hp s'.version m s'.modules hc
+  exact ⟨r, hr, a1, a2, a4, a5, a6, fun m' hm' => a3.trans (a7 m' hm')⟩
+
+set_option maxRecDepth 100000 in
+/-- `C01_source_capstone_roundtrip` at a concrete input, evaluated by the kernel on the assembled translated definitions:
+    `add_data(b"hi")` (default threshold 20), version 1-M, mask 3 - the strict ISO reader returns "hi", version 1, level M, mask 3 -/
+example : (match compileCallsSrc (pyModel (fun d => d.length) id)
+        (bestFitSrc modeSizesSrc (segsBitsSrc (writeBufSrc findBytes1)) Gen.BIT_LIMIT_TABLE bisectLeft checkVersionSrc 4)
+        (createDataSrc (segsBitsBufSrc findBytes1) (ecOfBlockSrc rsPolyFor polyMk polyMod)) (makeImplSrc bchDigitSrc) lostPointSrc
+        { version := 1, level := 0, mask := some 3, fit := false } [([104, 105], 20)] with
+    | .ok (v, m, M) => (match Spec.read (symOf M) with
+        | .ok r => r.version == v && r.mask == m && r.payload == [104, 105] && r.level == Spec.Level.M
+        | .error _ => false)
+    | _ => false) = true := by decide +kernel
+
+end Capstone
 
 /-- the Python functions this property's model mirrors have, in /repo's current working tree, exactly the normalised
     ASTs the model was written and validated against (fingerprints regenerated by T1 on every run) -/
